@@ -1,6 +1,8 @@
 From Coq Require Extraction ExtrOcamlBasic.
 From OxiVerif Require Import Base.Conv DD.Table DD.TableExtra DD.Sem DD.Build DD.Apply Mgr.Oom
   Mgr.Conc Mgr.OomOwn Mgr.OomOwnTie.
+From OxiVerif Require Import Num.I64 DD.ApplyBcdd DD.FamSpec DD.ZbddOps DD.ZbddBool DD.ApplyMtbdd
+  Mgr.OomGen Mgr.OomBcdd Mgr.OomZbdd Mgr.OomMtbdd.
 Extraction Language OCaml.
 Extraction "model.ml" conv_anchor
   Table.sem_edge Table.wf_b TableExtra.wf_full_b Table.rc_exact_b Table.no_dead_b
@@ -10,4 +12,10 @@ Extraction "model.ml" conv_anchor
   Oom.node_count Oom.get_or_insert_cap Oom.mk_node_cap Oom.mk_var_cap
   Oom.not_nc Oom.bin_nc Oom.ite_nc Oom.res_code Oom.res_snap Oom.res_ref
   Table.find_node OomOwn.ores_code OomOwnTie.own_inv_b OomOwnTie.own_not OomOwnTie.own_bin OomOwnTie.own_ite
-  OomOwnTie.own_snap OomOwnTie.own_tokens OomOwnTie.snap_tokens OomOwnTie.own_put.
+  OomOwnTie.own_snap OomOwnTie.own_tokens OomOwnTie.snap_tokens OomOwnTie.own_put
+  OomGen.gres_code OomGen.gres_snap OomGen.gres_val OomGen.term_count
+  ApplyBcdd.bcok_b OomBcdd.cnot_nc OomBcdd.cop_nc OomBcdd.cite_nc OomBcdd.cmk_var_cap
+  ZbddOps.zbdd_ok_b ZbddBool.zchain_ok_b OomZbdd.zset_nc OomZbdd.znot_nc OomZbdd.zop_nc OomZbdd.zite_nc
+  OomZbdd.zsingleton_cap OomZbdd.zmake_node_cap
+  ApplyMtbdd.mt_ok_b ApplyMtbdd.code ApplyMtbdd.decode I64.i64_one I64.i64_zero
+  OomMtbdd.mbin_nc OomMtbdd.mite_nc OomMtbdd.mrestrict_nc OomMtbdd.mt_const_cap OomMtbdd.mt_var_cap.
